@@ -23,6 +23,7 @@ EXPLANATION = (
 EXPLANATION += (' Added after the audit wave: C08.8 the first adaptive step is bounded by the fibre length before it is used (a weak field in a lossy fibre otherwise steps past the end: negative remainder, exp(+alpha*h/2) overflow, NaN output; an all-zero field never returned).')
 EXPLANATION += (' Second audit wave: C08.6 the dB-to-neper constant equals 10/ln(10) to 1e-9 (constants written with log(10) are evaluated by forms.const_float).')
 EXPLANATION += (" Wave 14: C08.10 the adaptive step is sized by the total power over the polarisation rows - no mean / average over the rows of atleast_2d(A) in the value assigned to the step variable (an empty second polarisation must not change the steps). C08.9 the in-place clause of C14 for FIBER's parameters.")
+EXPLANATION += (' Wave 15: C08.11 with a noise component on the input, neither the returned signal nor the value the stepping loop starts from reads input.noise: the propagated field is the signal, the noise is carried beside it.')
 TRUSTED = ["numpy.fft", "Karr's affine-relation domain as implemented in ocv/karr.py", "C07.3 (D_op form)"]
 
 
@@ -563,6 +564,40 @@ def _at_most_length(v, length, depth=0, conds=()):
     return False
 
 
+def rule_field_is_signal(ctx, fi, rule="C08.11"):
+    """the field that is propagated is the input's signal component, whatever noise the input carries: the energy law, the SPM
+    closed form and the convergence are all stated for the signal.  A field taken as signal + noise (a shared `_total_samples`
+    helper) drives the Kerr phase and the step control by |signal + noise|^2 and returns the noise twice - once folded into the
+    signal, once as the carried noise component.  Decided on the returned signal of a run with a noise component present."""
+    from ..absint import ObjV
+    pkg = ctx.pkg
+    it = Interp(pkg, assumptions={"show_progress": False, "input.noise": "notnone", "gamma": ("truth", True)}, param_classes={"input": "optical_signal"})
+    try:
+        outs = [o for o in it.run(fi) if o.kind == "return" and isinstance(o.value, ObjV)]
+    except Exception as ex:
+        ctx.unknown(rule, fi, fi.node, "FIBER [noise present]: propagated field", f"not interpreted ({type(ex).__name__})")
+        return
+    if not outs:
+        ctx.unknown(rule, fi, fi.node, "FIBER [noise present]: propagated field", "no returning path")
+        return
+    for o in outs:
+        got = o.value.fields.get("signal")
+        if not isinstance(got, Form):
+            ctx.unknown(rule, fi, o.node, "FIBER [noise present]: propagated field", "returned signal not determined")
+            continue
+        dep = sorted(x for x in got.syms() if x == "input.noise" or x.startswith("input.noise."))
+        # the stepping loop carries the field from pass to pass: what it STARTS from is read off the assignments ahead of the loop
+        from ..rules import in_loop
+        sites = find_sites(fi, it)
+        fvar = sites[-1][1] if sites else None
+        for f_, st_, nm_, v_, c_, d_ in it.assign_log:
+            if fvar is not None and nm_ == fvar and d_ == 0 and not in_loop(st_) and isinstance(v_, Form):
+                dep += sorted(x for x in v_.syms() if x == "input.noise" or x.startswith("input.noise."))
+        ctx.check(rule, not dep, fi, o.node, "FIBER [noise present]: the propagated field is the input signal", "the returned signal does not read input.noise",
+                  "the returned signal is computed from input.noise as well: the noise component enters the nonlinear phase and the step control, the energy of the output is not the "
+                  "signal's energy times exp(-alpha L), and the noise is returned twice (in the signal and as the noise component)")
+
+
 def rule_first_step(ctx, fi, it):
     """C08.8: the step the stepping loop STARTS with is at most the fibre length.  The accounting `x_length = h; ... if x_length + h >
     length: break; ...; h = length - x_length` keeps the distance covered below the length only if it starts below it: a weak signal
@@ -620,6 +655,7 @@ def run(ctx):
     rule_returned_field(ctx, fi, itn, "C08.7")
     rule_first_step(ctx, fi, itn)
     rule_total_power(ctx, fi, itn)
+    rule_field_is_signal(ctx, fi)
     check_late_binding(ctx, "C08.5", ["devices.FIBER"])
     # C08.9: the energy law is stated per call: FIBER called twice with the same arguments gives the same output.  A parameter
     # rescaled in place (alpha *= ln(10)/10 on a 0-d or one-element array the caller keeps) makes the second call a different fibre
@@ -632,3 +668,4 @@ def run(ctx):
     ctx.require_min("C08.4", 2)
     ctx.require_min("C08.6", 4)
     ctx.require_min("C08.7", 1)
+    ctx.require_min("C08.11", 1)
